@@ -50,7 +50,7 @@ impl<'de, O: Offset> ListDeserializer<'de, O> {
 
 impl<O: NamedType + Offset> Context for ListDeserializer<'_, O> {
     fn annotate(&self, annotations: &mut std::collections::BTreeMap<String, String>) {
-        set_default(annotations, "filed", &self.path);
+        set_default(annotations, "field", &self.path);
         set_default(
             annotations,
             "data_type",
